@@ -340,6 +340,28 @@ def R5_tlv_reader(run):
                 if bb["t"]["k"] == "ret":
                     reads = {s[2] for s in subterms(pv.local(0, bi, len(bb["s"]))) if s[0] == "field"}
                     run.check("R5", "accessor:" + fn.name, reads == {fn.name}, "accessor %s() reads %s" % (fn.name, sorted(reads)), loc=fn.loc(), detail="reads its own field")
+    # where the TLV area starts: byte 166 for mints and token accounts alike (a mint's 82 bytes are padded to the account length
+    # before the account-type byte, so `base length + 1` is right for accounts only and lands in a mint's zero padding)
+    xs = [f_ for f_ in facts.fn_list if f_.kind == "fn" and f_.path.endswith("::extensions_tlv_data")]
+    okx = len(xs) == 1
+    if okx:
+        xf = xs[0]
+        run.touch(xf)
+        pvx = prov_of(xf)
+        starts, bounds = [], []
+        for bi, bb in enumerate(xf.blocks):
+            if bb["t"]["k"] == "ret":
+                for l in leaves(pvx.local(0, bi, len(bb["s"]))):
+                    for s_ in subterms(l):
+                        if s_[0] == "agg" and s_[1].endswith("ops::RangeFrom"):
+                            starts.append(const_val(dict(s_[3])["start"]))
+        for at in A.atoms(xf):
+            c = at.cond()
+            if c and c[0] in ("Le", "Lt", "Gt", "Ge"):
+                bounds += [const_val(x) for x in (c[1], c[2]) if const_val(x) is not None]
+        okx = starts == [166] and bounds == [166]
+    run.check("R5", "tlv-offset", okx, "extensions_tlv_data does not start the TLV area at byte 166 for every account kind (starts %s, length test against %s)" % (starts if xs else "?", bounds if xs else "?"),
+              loc=xs[0].loc() if xs else None, detail="bytes[166..] when len > 166, for mints and token accounts alike")
     # length checks
     pe = facts.need_fn(base + "parse_token_extensions")
     run.touch(pe)
